@@ -15,7 +15,7 @@ import pickle
 from hypothesis import HealthCheck, given, seed, settings, strategies as st
 
 from pbt import gen, hist, prog, snap
-from pbt.core import Collector, mksig
+from pbt.core import Collector, HarnessError, mksig
 from pbt.props import c01
 
 ID = "C15"
@@ -166,7 +166,7 @@ def check_case(case):
 def valid_case(case):
     try:
         return case["mech"] in MECHS and isinstance(case["root"], dict) and all(w in ("o", "d") and isinstance(s, list) and len(s) >= 2 for w, s in case["suffix"])
-    except Exception:
+    except (Exception, HarnessError):
         return False
 
 
